@@ -20,6 +20,16 @@ Definition overlap_trunc (ls ss delta : R) : R := RInt (overlap_integrand ls ss 
 
 (* ------------------------------------------------------------------ the generated model is what the property says *)
 
+(* the proofs below compare the generated text with the stated integral up to linear arithmetic in the limits and in the
+   arguments of phi / Phi, so that behaviour-preserving rewrites of the source (16.*sc vs sc*16., x vs x - 0.0, renamed
+   locals, a named local function instead of the lambda) do not break them, while any change of value does *)
+Ltac arith_eq := repeat (try reflexivity; try lra; f_equal).
+Ltac norm_arg f target :=
+  repeat match goal with |- context [f ?a] =>
+    lazymatch a with target => fail | _ => replace (f a) with (f target) by (apply f_equal; arith_eq) end end.
+Ltac same_bounds :=
+  match goal with |- RInt _ ?a ?b = RInt _ ?c ?d => replace a with c by lra; replace b with d by lra end.
+
 Lemma pf_simple_load_is_Phi sm ss L :
   fp_pf_simple_load sm ss L = Phi ((log10R L - log10R sm) / ss).
 Proof. reflexivity. Qed.
@@ -34,18 +44,18 @@ Proof. intros H. unfold pf_closed_of, pf_closed. rewrite sqrt_sq_sum_0 by assump
 Lemma pf_norm_load_is_truncated_overlap sm ss lm ls :
   fp_pf_norm_load sm ss lm ls = overlap_trunc ls ss (log10R sm - log10R lm).
 Proof.
-  unfold fp_pf_norm_load, overlap_trunc, quad_ideal. cbv zeta.
-  apply RInt_ext. intros x _. unfold overlap_integrand, norm_pdf, norm_cdf.
-  replace (x - 0) with x by lra. reflexivity.
+  unfold fp_pf_norm_load, overlap_trunc, quad_ideal. cbv beta zeta.
+  same_bounds. apply RInt_ext. intros x _. unfold overlap_integrand, norm_pdf, norm_cdf.
+  norm_arg phi (x / ls). norm_arg Phi ((x - (log10R sm - log10R lm)) / ss). unfold Rdiv. match goal with |- ?a = ?b => change (@eq R a b) end. ring.
 Qed.
 
 Lemma pf_norm_load_limits_is_overlap sm ss lm ls lo up :
   fpl_pf_norm_load sm ss lm ls lo up =
   RInt (overlap_integrand ls ss (log10R sm - log10R lm)) (lo - log10R lm) (up - log10R lm).
 Proof.
-  unfold fpl_pf_norm_load, quad_ideal. cbv zeta.
-  apply RInt_ext. intros x _. unfold overlap_integrand, norm_pdf, norm_cdf.
-  replace (x - 0) with x by lra. reflexivity.
+  unfold fpl_pf_norm_load, quad_ideal. cbv beta zeta.
+  same_bounds. apply RInt_ext. intros x _. unfold overlap_integrand, norm_pdf, norm_cdf.
+  norm_arg phi (x / ls). norm_arg Phi ((x - (log10R sm - log10R lm)) / ss). unfold Rdiv. match goal with |- ?a = ?b => change (@eq R a b) end. ring.
 Qed.
 
 Lemma pf_norm_load_default_limits sm ss lm ls :
